@@ -107,6 +107,11 @@ P = {
         note="Partial for the bootstrap: the interior of compute_bootstrap_errors (strata distributions, PIT, multivariate samplers) is not modelled beyond 'a function of the fitting rows and the seeded generator'; that part rests on the paired runs.",
         tech="Coq proof (non-interference of a composed functional model, solver and outlier model universally quantified) + paired-run differential correspondence with solver-argument capture",
         ref="DESIGN.md section 5 C10"),
+    "C12": dict(
+        text="Generated facts re-derived from the source each run and decided by computation: every randomness site on the estimate path (new generators, generator methods, DataFrame.sample, scipy bootstrap incl. through function parameters) is built from the seed setting; get_estimates reads no client field before writing it; every self.model assignment constructs a fresh model. Theorems: all sites seeded -> result independent of process-global generator state; no read-before-write -> result independent of the client's history; the summary depends on the latest estimate run only. Correspondence: bit-for-bit paired executions (same/fresh client, after other calls, perturbed global generators, PYTHONHASHSEED 0/1/4242 in subprocesses), all three estimators, national summary.",
+        note="Partial: thread-level nondeterminism of BLAS/HiGHS and iteration order effects are outside the model; they would surface in the paired executions. numpy/scipy generator algorithms are oracles.",
+        tech="Coq: computation on translator-generated randomness / state-access facts + determinism theorems; paired-execution differential correspondence",
+        ref="DESIGN.md section 5 C12"),
 }
 
 REASON_NOT_BUILT = "check not built yet in this development stage (planned: see DESIGN.md section 5)"
